@@ -211,3 +211,89 @@ def _split_base(e: ast.AST) -> str | None:
             and isinstance(e.func.value, ast.Name):
         return e.func.value.id
     return None
+
+
+_OPEN_EXAMPLE = '''
+def rewrite(path, chunks):
+    with path.open('wb') as dest:
+        for c in chunks:
+            dest.write(c)
+        size = path.stat().st_size
+    return size
+'''
+
+
+def _write_open(e: ast.AST) -> str | None:
+    """the path expression (normal text) when `e` opens a file for writing: P.open('wb'), open(P, 'w'), io.open(..)"""
+    if not isinstance(e, ast.Call):
+        return None
+    mode = None
+    path = None
+    if isinstance(e.func, ast.Attribute) and e.func.attr == 'open' and not (
+            isinstance(e.func.value, ast.Name) and e.func.value.id in ('io', 'os', 'codecs', 'gzip')):
+        path = e.func.value
+        mode = e.args[0] if e.args else next((k.value for k in e.keywords if k.arg == 'mode'), None)
+    elif (isinstance(e.func, ast.Name) and e.func.id == 'open') or (
+            isinstance(e.func, ast.Attribute) and e.func.attr == 'open'):
+        path = e.args[0] if e.args else None
+        mode = e.args[1] if len(e.args) > 1 else next((k.value for k in e.keywords if k.arg == 'mode'), None)
+    if path is None or not (isinstance(mode, ast.Constant) and isinstance(mode.value, str)):
+        return None
+    if not any(ch in mode.value for ch in 'wax+'):
+        return None
+    return ast.unparse(path)
+
+
+def observed_while_written(fn: ast.AST) -> tuple[int, list[tuple[ast.AST, str, ast.AST]]]:
+    """A file that is being written through a buffered handle has its final size and content only once the
+    handle is closed.  Inside `with P.open('wb') as h:` (and between `h = P.open('wb')` and `h.close()`) nothing
+    may *observe* P: `P.stat()`, `os.stat(P)`, `os.path.getsize(P)`, a second open of P, a digest of P.
+    -> (write-open blocks analysed, [(block, path text, observing node)])"""
+    found: list[tuple[ast.AST, str, ast.AST]] = []
+    n = 0
+
+    def observes(node: ast.AST, p: str) -> bool:
+        if not isinstance(node, ast.Call):
+            return False
+        f = node.func
+        if isinstance(f, ast.Attribute) and f.attr in ('stat', 'lstat', 'read_bytes', 'read_text', 'open') \
+                and ast.unparse(f.value) == p:
+            return True
+        name = ast.unparse(f)
+        if name in ('os.stat', 'os.path.getsize', 'os.lstat', 'open', 'io.open', 'shutil.copy', 'shutil.copyfile',
+                    'hashlib.file_digest') and node.args and ast.unparse(node.args[0]) == p:
+            return True
+        return False
+    for w in [x for x in ast.walk(fn) if isinstance(x, (ast.With, ast.AsyncWith))]:
+        for item in w.items:
+            p = _write_open(item.context_expr)
+            if p is None:
+                continue
+            n += 1
+            for st in w.body:
+                for x in ast.walk(st):
+                    if observes(x, p):
+                        found.append((w, p, x))
+    # handle = P.open('wb') ... handle.close(): what follows in the same block, up to the close
+    for holder in ast.walk(fn):
+        for f_ in ('body', 'orelse', 'finalbody'):
+            blk = getattr(holder, f_, None)
+            if not (isinstance(blk, list) and blk and isinstance(blk[0], ast.stmt)):
+                continue
+            for i, a in enumerate(blk):
+                if not (isinstance(a, ast.Assign) and len(a.targets) == 1 and isinstance(a.targets[0], ast.Name)):
+                    continue
+                p = _write_open(a.value)
+                if p is None:
+                    continue
+                n += 1
+                h = a.targets[0].id
+                for st in blk[i + 1:]:
+                    closed = any(isinstance(c, ast.Call) and isinstance(c.func, ast.Attribute) and c.func.attr == 'close'
+                                 and isinstance(c.func.value, ast.Name) and c.func.value.id == h for c in ast.walk(st))
+                    for x in ast.walk(st):
+                        if observes(x, p):
+                            found.append((a, p, x))
+                    if closed:
+                        break
+    return n, found
